@@ -56,6 +56,74 @@ CHECKS = {
         "Interval-level soundness is C21/C22's business (excused here, counted in evidence).",
         "DESIGN.md §2 C23",
     ),
+    "C12": (
+        "model_checking",
+        "explicit-state BFS over solver event histories (E4) on SolverComposite; brute-force model-set oracle",
+        "Histories over four 2-bit variables whose constraints connect/disconnect child solvers in every order, queries "
+        "and extras spanning 0-2 children, simplify/branch/downsize/pickle; depth 3-4 (thorough 5, reuse, track).",
+        "As C11. merge/combine/split are decided by C15, branch isolation by C14.",
+        "DESIGN.md §2 C12",
+    ),
+    "C13": (
+        "model_checking",
+        "explicit-state BFS over solver event histories (E4); exact oracle for exact modes, containment oracle for approximate modes",
+        "SolverReplacement (defaults; options toggled in thorough) and SolverHybrid(exact) against the exact oracle; "
+        "SolverHybrid(exact=False / approximate_first) and SolverVSA against the over-approximation oracle.",
+        "As C11; an approximate solver declining a query (ClaripyFrontendError) is counted as unsupported.",
+        "DESIGN.md §2 C13",
+    ),
+    "C14": (
+        "model_checking",
+        "explicit-state BFS over interleaved histories on trees of branched solvers; per-member reference + projection differential",
+        "Prefix on the root, fork, then every interleaving of events over all members (nested forks), for every frontend "
+        "class; a wrong answer is a leak iff the member's own projection answers correctly; approximate classes are "
+        "compared literally with their projection.",
+        "As C11.",
+        "DESIGN.md §2 C14",
+    ),
+    "C15": (
+        "model_checking",
+        "exhaustive enumeration of solver-state pairs/triples x merge conditions; model sets compared with the brute-force specification",
+        "merge / merge with ancestor / sibling merges / combine / split on every class over all pairs of short-history "
+        "states and all condition tuples; result model set read back exhaustively (128 assignments).",
+        "The result's model set is read through its own satisfiable()+batch_eval (exactness of those is C11/C12).",
+        "DESIGN.md §2 C15",
+    ),
+    "C16": (
+        "model_checking",
+        "exhaustive enumeration of constraint orders on tracking solvers; truth-table check of the returned core",
+        "Every order of every <=3-subset (4 on a sub-alphabet) of an 11-constraint alphabet with queries interleaved in "
+        "4 variants, Solver and SolverComposite with track=True; element types, membership, unsatisfiability of the core.",
+        "Core elements may be constraints the solver holds after its own simplification.",
+        "DESIGN.md §2 C16",
+    ),
+    "C17": (
+        "fault_enumeration",
+        "enumeration of every fault position (k-th solver check) x fault kind x follow-up order over short histories (E4 + injector)",
+        "The k-th z3_solver_sat call of every operation after every prefix history is made to fail before/after the Z3 "
+        "check with timeout/unknown; the call must raise a ClaripyError and all later answers (same object, reversed "
+        "order, fresh branch) must satisfy the brute-force oracle.",
+        "Seam: module global backend_z3.z3_solver_sat, replaced at run time.",
+        "DESIGN.md §2 C17",
+    ),
+    "C18": (
+        "model_checking",
+        "exhaustive enumeration of expression / solver states, round-tripped in-process and in child interpreters with other hash seeds",
+        "All E1 states to depth 2 plus annotated/FP/string expressions: identity in-process, structure+metadata+truth "
+        "table in children (PYTHONHASHSEED 1, 2, random); every solver state of depth <=2 (3 thorough) of every class "
+        "queried after unpickling, in-process and cross-process, against the brute-force oracle.",
+        "A query the never-pickled twin also gets wrong is dropped (C11-C13 decide it).",
+        "DESIGN.md §2 C18",
+    ),
+    "C19": (
+        "model_checking",
+        "stateless DFS with visited-state pruning over all interleavings of real threads under a baton scheduler (line granularity)",
+        "2-3 real threads run nested condom-wrapped calls; every line of _enter_z3/_exit_z3/z3_condom, every body entry "
+        "and lock acquisition is a scheduling point; the lock and the GC flag are models; all reachable states visited; "
+        "plus application toggles of the GC between calls and interrupts injected at every lock acquisition.",
+        "Line granularity; lock and GC are run-time substitutes for backend_z3._gc_lock / backend_z3.gc.",
+        "DESIGN.md §1.4, §2 C19",
+    ),
 }
 
 NOT_YET = "check not built yet in this session (planned; see DESIGN.md §2)"
